@@ -120,7 +120,16 @@ def solve_scipy(
     obj_fn = cache["obj_fn"]
     grad_fn = cache["grad_fn"]
     scipy_constraints = cache["scipy_constraints"]
-    bounds = cache["bounds"]
+    # Variable bounds can be edited between solves (v.lb = ...) without going
+    # through the problem, so they are read afresh instead of from the cache
+    bounds = [
+        (
+            v.lb if v.lb is not None else -np.inf,
+            v.ub if v.ub is not None else np.inf,
+        )
+        for v in variables
+    ]
+    cache["bounds"] = bounds
 
     def objective(x: np.ndarray) -> float:
         return float(obj_fn(x))
